@@ -8,8 +8,8 @@ import sys
 from .common import ENV, HARNESS, ROOT, SPEC, ToolError, build_harness, hbin, sh, tlc_cached
 
 MODELS = {
-    "quick": [("all3", "Agg_all3.cfg"), ("core4", "Agg_core4.cfg"), ("uses4", "Agg_uses4.cfg"), ("build4", "Agg_build4.cfg"), ("shape4", "Agg_shape4.cfg")],
-    "thorough": [("all3", "Agg_all3.cfg"), ("core4", "Agg_core4.cfg"), ("uses4", "Agg_uses4.cfg"), ("build4", "Agg_build4.cfg"), ("shape4", "Agg_shape4.cfg"), ("core5", "Agg_core5.cfg")],
+    "quick": [("all3", "Agg_all3.cfg"), ("core4", "Agg_core4.cfg"), ("uses4", "Agg_uses4.cfg"), ("build4", "Agg_build4.cfg"), ("shape4", "Agg_shape4.cfg"), ("world3", "Agg_world3.cfg")],
+    "thorough": [("all3", "Agg_all3.cfg"), ("core4", "Agg_core4.cfg"), ("uses4", "Agg_uses4.cfg"), ("build4", "Agg_build4.cfg"), ("shape4", "Agg_shape4.cfg"), ("world3", "Agg_world3.cfg"), ("core5", "Agg_core5.cfg")],
 }
 
 
@@ -30,6 +30,10 @@ def artefacts(tier):
     tlc_cached("agg-found2", "MC_Agg", "Agg_found2.cfg", workers=4, timeout=900, keep=("NOTHING",), expect_violation="OneImportPerKey")
     # the ideal (owner imports aggregated like requirements, KF24 repaired) meets the contract with nothing excused
     tlc_cached("agg-ideal", "MC_Agg", "Agg_ideal.cfg", workers=4, timeout=900, keep=("NOTHING",))
+    # merge_world / merge_module_type as they are: "the merged type satisfies every contributor" is refuted (KF28);
+    # the greatest common subtype (CMerge) meets every invariant with nothing excused
+    tlc_cached("agg-found3", "MC_Agg", "Agg_found3.cfg", workers=4, timeout=900, keep=("NOTHING",), expect_violation="SatisfiesAll")
+    tlc_cached("agg-world-ideal", "MC_Agg", "Agg_world_ideal.cfg", workers=4, timeout=900, keep=("NOTHING",))
     return out, found
 
 
